@@ -337,3 +337,105 @@ Theorem C06_chan_example :
   [9; 0; 0] ++ [9; 0; 0] ++ [7; 0].
 Proof. exact example_history. Qed.
 Print Assumptions C06_chan_example.
+
+(* ================================================================================================================
+   TIE TO THE SOURCE CODE: cameleon/src/u3v/control_handle.rs translated on every run by tools/translate_control.py into
+   gen/ControlSrc.v (operations: model/CtlOps.v; proofs: proofs/P_C06s.v).  The translated code runs on the model's
+   state (handle, scripted device) and a ghost part (the CONTENTS of self.buffer, the log of sleeps).
+   [same_as_model mx m Q] (C06_same_as_model_def spells it out): from every handle whose fields are in the ranges of
+   their types (hinv: limits u32, request id u16), every device that holds and sends bytes (wbytes) and every ghost
+   buffer of the recorded length, the translated [mx] and the model's [m] return the same value / error class / panic,
+   leave the same handle and the same device (memory, script, wire log, device writes), and the invariants hold again.
+   ================================================================================================================ *)
+From Cam Require Import RustInt CurOps ReadChunks RegTables CtlOps ControlSrc P_C07c P_C10s P_C06s.
+
+Theorem C06_same_as_model_def : forall A (mx : X A) (m : Control.M A) (Q : A -> Prop),
+  same_as_model mx m Q <->
+  (forall (c : Control.ctl) (w : Control.world) g, hinv c -> wbytes w -> zlen (g_buf g) = Control.c_buflen c ->
+     let r := mx ((c, w), g) in
+     (fst r, fst (snd r)) = m (c, w) /\
+     hinv (fst (fst (snd r))) /\ wbytes (snd (fst (snd r))) /\
+     zlen (g_buf (snd (snd r))) = Control.c_buflen (fst (fst (snd r))) /\
+     (forall a, fst r = Ok a -> Q a)).
+Proof. exact same_as_model_def. Qed.
+Print Assumptions C06_same_as_model_def.
+
+(* fn verify_range: the u128 comparison of the source is the model's test, for every u64 address and usize length; the
+   state is not touched; the range is refused exactly when it leaves the 64 bit address space *)
+Theorem C06_verify_range_from_source : forall a n (s : xst), 0 <= a < 2 ^ 64 -> 0 <= n < 2 ^ 64 ->
+  src_verify_range a n s = (fst (Control.verify_range a n (fst s)), s) /\
+  Control.verify_range a n (fst s) = ((if 2 ^ 64 <? a + n then Err CE_INVALID_DATA else Ok tt), fst s).
+Proof. exact verify_range_explicit. Qed.
+Print Assumptions C06_verify_range_from_source.
+
+Theorem C06_assert_open_from_source : forall s : xst,
+  src_assert_open s = (fst (Control.assert_open (fst s)), s) /\
+  Control.assert_open (fst s) = ((if Control.c_opened (fst (fst s)) then Ok tt else Err CE_NOT_OPENED), fst s).
+Proof. exact assert_open_explicit. Qed.
+Print Assumptions C06_assert_open_from_source.
+
+(* DeviceControl::read, any u64 address, any buffer a usize can index (no bound on the size: induction over the chunk
+   list): assert_open, verify_range, the ReadMem::chunks check, the loop over buf.chunks_mut(maximum_read_length): per
+   chunk one send_cmd of ReadMem(address, chunk length), the length check of the returned data, copy_from_slice, the
+   address advanced by the chunk length *)
+Theorem C06_read_from_source : forall a buf, 0 <= a < 2 ^ 64 -> zlen buf < 2 ^ 64 ->
+  same_as_model (src_read a buf) (Control.ctl_read a (zlen buf)) bytes_ok.
+Proof. exact read_explicit. Qed.
+Print Assumptions C06_read_from_source.
+
+(* DeviceControl::write, any u64 address, any byte slice: blocks of at most u16::MAX - 8 bytes, WriteMem::new per block,
+   the translated WriteMemChunks iterator per block, per chunk one send_cmd and the written-length check, the address
+   advanced by the block length *)
+Theorem C06_write_from_source : forall a data, 0 <= a < 2 ^ 64 -> zlen data < 2 ^ 64 -> bytes_ok data ->
+  same_as_model (src_write a data) (Control.ctl_write a data) (fun _ => True).
+Proof. exact write_explicit. Qed.
+Print Assumptions C06_write_from_source.
+
+(* "any negotiated limits": ControlHandle::abrm (cache or one read of DEVICE_CAPABILITY), initialize_config (ABRM, SBRM
+   address + capability, response time, maximum command / acknowledge length, in this order, then the assignments),
+   DeviceControl::open (inner.open, set_halt, clear_halt, initialize_config) and close *)
+Theorem C06_session_from_source :
+  same_as_model src_abrm Control.h_abrm is_u64 /\
+  same_as_model src_initialize_config Control.initialize_config (fun _ => True) /\
+  same_as_model src_open Control.ctl_open (fun _ => True) /\
+  same_as_model src_close Control.ctl_close (fun _ => True).
+Proof. exact session_explicit. Qed.
+Print Assumptions C06_session_from_source.
+
+(* the property on the translated code alone (composition with C06_read_memory / C06_write_memory): against a conforming
+   device a read of any size through the TRANSLATED read returns exactly the device memory and leaves it unchanged, a
+   write makes the memory equal to the data *)
+Theorem C06_read_of_source : forall (c : Control.ctl) (w : Control.world) g a buf d,
+  hinv c -> wbytes w -> zlen (g_buf g) = Control.c_buflen c -> good_conf (c, w) ->
+  0 <= a < 2 ^ 64 -> zlen buf < 2 ^ 64 -> mem_read (Control.w_segs w) a (zlen buf) = Some d ->
+  exists c' w' g', src_read a buf ((c, w), g) = (Ok d, ((c', w'), g')) /\ Control.w_segs w' = Control.w_segs w /\
+                   good_conf (c', w').
+Proof. exact read_of_source. Qed.
+Print Assumptions C06_read_of_source.
+
+Theorem C06_write_of_source : forall (c : Control.ctl) (w : Control.world) g a data old,
+  hinv c -> wbytes w -> zlen (g_buf g) = Control.c_buflen c -> good_conf (c, w) ->
+  0 <= a < 2 ^ 64 -> 0 < zlen data < 2 ^ 64 -> bytes_ok data -> mem_read (Control.w_segs w) a (zlen data) = Some old ->
+  exists c' w' g', src_write a data ((c, w), g) = (Ok tt, ((c', w'), g')) /\
+                   seg_write (Control.w_segs w) a data = Some (Control.w_segs w') /\
+                   mem_read (Control.w_segs w') a (zlen data) = Some data.
+Proof. exact write_of_source. Qed.
+Print Assumptions C06_write_of_source.
+
+(* non-vacuity, evaluated in the kernel: the translated read on the device of C06_example (two chunks, a pending
+   acknowledge of 1 ms that is slept, request id wrapping from 65535, buffer grown to 24 bytes), a write, verify_range at
+   the end of the address space, open on the device of C06_open_example *)
+Theorem C06_source_examples :
+  (let r := src_read 4098 (repeat 0 7) ((ex_ctl, ex_world), g0) in
+   fst r = Ok [3; 4; 5; 6; 7; 8; 9] /\ (fst r, fst (snd r)) = Control.ctl_read 4098 7 (ex_ctl, ex_world) /\
+   Control.c_next (fst (fst (snd r))) = 1 /\ g_slept (snd (snd r)) = [1] /\ zlen (g_buf (snd (snd r))) = 24) /\
+  (let r := src_write 4100 [171; 205; 239] ((ex_ctl, ex_world), g0) in
+   fst r = Ok tt /\ (fst r, fst (snd r)) = Control.ctl_write 4100 [171; 205; 239] (ex_ctl, ex_world) /\
+   Control.w_writes (snd (fst (snd r))) = [(4100, [171; 205; 239])]) /\
+  (fst (src_verify_range (2 ^ 64 - 4) 4 ((ex_ctl, ex_world), g0)) = Ok tt /\
+   fst (src_verify_range (2 ^ 64 - 4) 5 ((ex_ctl, ex_world), g0)) = Err CE_INVALID_DATA) /\
+  (let r := src_open ((ctl_init, ex_open_world), g0) in
+   fst r = Ok tt /\ (fst r, fst (snd r)) = Control.ctl_open (ctl_init, ex_open_world) /\
+   Control.c_max_cmd (fst (fst (snd r))) = 1024 /\ Control.c_max_ack (fst (fst (snd r))) = 512).
+Proof. exact source_examples_c06. Qed.
+Print Assumptions C06_source_examples.
